@@ -366,7 +366,9 @@ func c08RacePass(r *report.Run) string {
 // sync/atomic. Without them every write to shared state during a run is unsynchronised.
 func libraryImportsSync() bool {
 	root := "/repo"
-	if b, err := os.ReadFile(filepath.Join(report.Root, "mc", "go.mod")); err == nil {
+	if r := os.Getenv("VERIF_REPO"); r != "" {
+		root = r
+	} else if b, err := os.ReadFile(filepath.Join(report.Root, "mc", "go.mod")); err == nil {
 		for _, line := range strings.Split(string(b), "\n") {
 			if strings.HasPrefix(strings.TrimSpace(line), "replace github.com/antonmedv/expr =>") {
 				f := strings.Fields(line)
